@@ -74,6 +74,10 @@ func CurrentLimits() Limits {
 	if os.Getenv("YP_SOLO") != "" {
 		return SoloLimits
 	}
+	if os.Getenv("YP_TEST_TIGHT") != "" {
+		// test of the confirmation machinery: limits so tight that correct code trips them all the time
+		return Limits{Watchdog: 60 * time.Microsecond, Grace: 0, Silent: 10 * time.Second}
+	}
 	return NormalLimits
 }
 
@@ -189,7 +193,11 @@ func Guarded(text string, lim Limits, wantEvents bool) Outcome {
 	start := time.Now()
 	var got *res
 	stuck := 0 // consecutive dumps in which everything of the call was blocked
-	tick := time.NewTicker(100 * time.Millisecond)
+	every := 100 * time.Millisecond
+	if lim.Watchdog < 2*every {
+		every = lim.Watchdog / 2
+	}
+	tick := time.NewTicker(every)
 	defer tick.Stop()
 wait:
 	for {
